@@ -392,7 +392,13 @@ func (se *SessionExecutor) bindStmtArgs(s *Stmt, nullBitmap, paramTypes, paramVa
 				return mysql.ErrMalformPacket
 			}
 
-			args[i] = float32(math.Float32frombits(binary.LittleEndian.Uint32(paramValues[pos : pos+4])))
+			// as a float64, so that the literal written into the statement denotes
+			// exactly this value (MySQL itself widens FLOAT parameters to double)
+			f := float64(math.Float32frombits(binary.LittleEndian.Uint32(paramValues[pos : pos+4])))
+			if math.IsNaN(f) || math.IsInf(f, 0) {
+				return fmt.Errorf("Stmt invalid float parameter value %v", f)
+			}
+			args[i] = f
 			pos += 4
 			continue
 
@@ -401,7 +407,11 @@ func (se *SessionExecutor) bindStmtArgs(s *Stmt, nullBitmap, paramTypes, paramVa
 				return mysql.ErrMalformPacket
 			}
 
-			args[i] = math.Float64frombits(binary.LittleEndian.Uint64(paramValues[pos : pos+8]))
+			f := math.Float64frombits(binary.LittleEndian.Uint64(paramValues[pos : pos+8]))
+			if math.IsNaN(f) || math.IsInf(f, 0) {
+				return fmt.Errorf("Stmt invalid float parameter value %v", f)
+			}
+			args[i] = f
 			pos += 8
 			continue
 
